@@ -1143,6 +1143,10 @@ class Model:
             for _input in node.all_input_nodes():
                 if isinstance(node, Dist) and _input is node.at:
                     edges.append((node, _input))
+                    if isinstance(_input, VarValue):
+                        # a draw is written to the value node behind the proxy, so
+                        # nodes reading that value node directly come later, too
+                        edges.extend((node, value) for value in _input.inputs)
                 else:
                     edges.append((_input, node))
 
